@@ -467,6 +467,8 @@ package message
 //@   ensures !r.isRunning ==> result != nil && calls(SUB) == old(calls(SUB)) [refused-when-the-router-is-not-running]
 //@   ensures result == nil ==> (forall k string :: has(r.handlers, k) ==> r.handlers[k].started) [every-registered-handler-holds-its-subscription]
 //@   assert @call:h.subscriber.Subscribe: !h.started && goodctx(ctx) [a-started-handler-is-never-subscribed-again]
+//@   assert @call:(*Router).decorateHandlerPublisher: !h.started [only-a-handler-that-is-not-started-yet-gets-its-publisher-decorated]
+//@   assert @call:(*Router).decorateHandlerSubscriber: !h.started [only-a-handler-that-is-not-started-yet-gets-its-subscriber-decorated]
 //@   assert @close:h.startedCh: h.started && h.messagesCh == ret(SUB, 0, calls(SUB) - 1) && h.stopFn != nil && h.stopped != nil [stop-and-stopped-usable-once-started-is-observable]
 //@   inv loop 1: r.handlers != nil && (forall k string :: has(r.handlers, k) ==> r.handlers[k] != nil && r.handlers[k].name == k && r.handlers[k].startedCh != nil && (!r.handlers[k].started ==> !closed(r.handlers[k].startedCh))) [registered-handlers-stay-well-formed]
 //@   inv loop 1: forall k1 string, k2 string :: has(r.handlers, k1) && has(r.handlers, k2) && k1 != k2 ==> r.handlers[k1] != r.handlers[k2] && r.handlers[k1].startedCh != r.handlers[k2].startedCh [handlers-and-their-started-channels-stay-distinct]
